@@ -1459,6 +1459,10 @@ func (cs *ConsensusState) addVote(vote *types.Vote, peerKey string) (added bool,
 			// fmt.Errorf("tryAddVote: Wrong height, not a LastCommit straggler commit.")
 			return added, ErrVoteHeightMismatch
 		}
+		if cs.LastCommit == nil {
+			// height 1: there is no previous height to collect precommits for
+			return added, ErrVoteHeightMismatch
+		}
 		added, err = cs.LastCommit.AddVote(vote)
 		if added {
 			log.Debug("Added to lastPrecommits: " + cs.LastCommit.StringShort())
